@@ -380,6 +380,15 @@ def _work(item):
 
 
 # ----------------------------------------------------------------------------- classification
+def _presorted_ignoring_na(case, cfg):
+    """the non-missing keys of the partitions follow one another (ascending or descending): dask then takes the frame for sorted"""
+    parts = [[x for x in p if x != NA] for p in split([r["k"] for r in case["rows"]], cfg["layout"])]
+    parts = [p for p in parts if p]
+    up = all(max(a) < min(b) for a, b in zip(parts, parts[1:]))
+    down = all(min(a) > max(b) for a, b in zip(parts, parts[1:]))
+    return len(parts) >= 1 and (up or down)
+
+
 def classify(case, cfg, strategy, clauses, obs):
     """Input class / call site: operation and its mode, the shuffle that ran (disk / tasks / tasks:staged), the key dtype
     class, and which promise is broken."""
@@ -403,6 +412,8 @@ def classify(case, cfg, strategy, clauses, obs):
             return "sort_values:partition-of-missing-keys:%s" % ("order" if group != "raised:IndexError" else group)
         if case["naf"] and has_na and group in ("order", "whole"):
             return "sort_values:na_position=first:missing-keys:order"
+        if has_na and group in ("order", "whole") and _presorted_ignoring_na(case, cfg):
+            return "sort_values:presorted-apart-from-missing-keys:order"
         return "sort_values:by=%s:%s:%s:%s" % (case["by"], strategy, kind, group)
     if fam == "setindex":
         if case["how"] == "auto" and has_na:
@@ -475,6 +486,9 @@ def famkey(c):
 def plan_items(ctx, cases, quota, kinds=KINDS):
     rng = ctx.rng
     layouts = {c["c"]["n"]: c["e"] for c in cases if c["c"]["fam"] == "layouts"}
+    # TLC's workers write the dump in no particular order: put the cases into a canonical order before sampling (determinism)
+    import json
+    cases = sorted(cases, key=lambda c: json.dumps(c["c"], sort_keys=True))
     byfam = {}
     for c in cases:
         if c["c"]["fam"] != "layouts":
